@@ -688,3 +688,223 @@ Proof.
   intros X Y p f. induction l as [|x l IH]; [reflexivity|]. cbn [map filter].
   destruct (p (f x)); cbn [length]; rewrite IH; reflexivity.
 Qed.
+
+(* ################################################################## *)
+(* 11. monotonicity of the expectation (used by C17_monotone) *)
+Local Open Scope nat_scope.
+(* ================================================================== *)
+(* A. reachability is monotone in the edge set *)
+Definition sub (a b : list nat) : Prop := forall v, memb v a = true -> memb v b = true.
+Definition step (es : list edge) (seen : list nat) : list nat :=
+  fold_left (fun acc v => unionv acc (nbrs es v)) seen seen.
+
+Lemma memb_app : forall v a b, memb v (a ++ b) = memb v a || memb v b.
+Proof. intros. unfold memb. apply existsb_app. Qed.
+Lemma memb_addv : forall v w l, memb v (addv w l) = Nat.eqb v w || memb v l.
+Proof.
+  intros v w l. unfold addv. destruct (memb w l) eqn:E.
+  - destruct (Nat.eqb v w) eqn:Evw; [|reflexivity]. apply Nat.eqb_eq in Evw. subst. rewrite E. reflexivity.
+  - rewrite memb_app. cbn. rewrite orb_false_r. apply orb_comm.
+Qed.
+Lemma memb_unionv : forall b a v, memb v (unionv a b) = memb v a || memb v b.
+Proof.
+  unfold unionv. induction b as [|x b IH]; intros a v; cbn [fold_left].
+  - cbn. rewrite orb_false_r. reflexivity.
+  - rewrite IH, memb_addv. cbn [memb existsb]. destruct (Nat.eqb v x), (memb v a); reflexivity.
+Qed.
+Lemma memb_fold_union : forall es l acc v,
+    memb v (fold_left (fun acc w => unionv acc (nbrs es w)) l acc)
+    = memb v acc || existsb (fun w => memb v (nbrs es w)) l.
+Proof.
+  intros es. induction l as [|x l IH]; intros acc v; cbn [fold_left existsb].
+  - rewrite orb_false_r. reflexivity.
+  - rewrite IH, memb_unionv. rewrite orb_assoc. reflexivity.
+Qed.
+Lemma memb_step : forall es seen v,
+    memb v (step es seen) = memb v seen || existsb (fun w => memb v (nbrs es w)) seen.
+Proof. intros. apply memb_fold_union. Qed.
+
+Lemma addv_len : forall v l, length l <= length (addv v l) /\ (length (addv v l) = length l -> addv v l = l).
+Proof.
+  intros v l. unfold addv. destruct (memb v l); [split; auto|].
+  rewrite app_length. cbn [length]. split; [lia|intros; lia].
+Qed.
+Lemma unionv_len : forall b a, length a <= length (unionv a b) /\ (length (unionv a b) = length a -> unionv a b = a).
+Proof.
+  unfold unionv. induction b as [|x b IH]; intros a; cbn [fold_left]; [split; auto|].
+  destruct (addv_len x a) as [L1 E1]. destruct (IH (addv x a)) as [L2 E2].
+  split; [lia|]. intros Hlen.
+  assert (Ha : length (addv x a) = length a) by lia.
+  rewrite E2 by lia. apply E1, Ha.
+Qed.
+Lemma fold_union_len : forall es l acc,
+    length acc <= length (fold_left (fun acc w => unionv acc (nbrs es w)) l acc)
+    /\ (length (fold_left (fun acc w => unionv acc (nbrs es w)) l acc) = length acc ->
+        fold_left (fun acc w => unionv acc (nbrs es w)) l acc = acc).
+Proof.
+  intros es. induction l as [|x l IH]; intros acc; cbn [fold_left]; [split; auto|].
+  destruct (unionv_len (nbrs es x) acc) as [L1 E1]. destruct (IH (unionv acc (nbrs es x))) as [L2 E2].
+  split; [lia|]. intros Hlen.
+  assert (Ha : length (unionv acc (nbrs es x)) = length acc) by lia.
+  rewrite E2 by lia. apply E1, Ha.
+Qed.
+
+Lemma reach_unfold : forall f es seen,
+    reach (S f) es seen = if Nat.eqb (length (step es seen)) (length seen) then seen else reach f es (step es seen).
+Proof. reflexivity. Qed.
+
+Lemma memb_nbrs_mono : forall es1 es2 w v,
+    (forall e, In e es1 -> In e es2) -> memb v (nbrs es1 w) = true -> memb v (nbrs es2 w) = true.
+Proof.
+  intros es1 es2 w v Hsub Hv. unfold memb in *. apply existsb_exists in Hv. destruct Hv as [x [Hx Hvx]].
+  apply existsb_exists. exists x. split; [|exact Hvx].
+  unfold nbrs in *. apply in_flat_map in Hx. destruct Hx as [e [He Hx]].
+  apply in_flat_map. exists e. split; [apply Hsub, He|exact Hx].
+Qed.
+
+Lemma step_mono : forall es1 es2 s1 s2,
+    (forall e, In e es1 -> In e es2) -> sub s1 s2 -> sub (step es1 s1) (step es2 s2).
+Proof.
+  intros es1 es2 s1 s2 He Hs v Hv. rewrite memb_step in *. apply orb_true_iff in Hv.
+  apply orb_true_iff. destruct Hv as [Hv|Hv]; [left; apply Hs, Hv|right].
+  apply existsb_exists in Hv. destruct Hv as [w [Hw Hvw]]. apply existsb_exists.
+  exists w. split.
+  - assert (Hm : memb w s1 = true) by (unfold memb; apply existsb_exists; exists w; split; [exact Hw|apply Nat.eqb_refl]).
+    apply Hs in Hm. unfold memb in Hm. apply existsb_exists in Hm. destruct Hm as [w' [Hw' E]].
+    apply Nat.eqb_eq in E. subst w'. exact Hw'.
+  - apply (memb_nbrs_mono es1 es2); assumption.
+Qed.
+
+Lemma step_ext : forall es s, sub s (step es s).
+Proof. intros es s v Hv. rewrite memb_step, Hv. reflexivity. Qed.
+Lemma reach_ext : forall f es s, sub s (reach f es s).
+Proof.
+  induction f as [|f IH]; intros es s v Hv; [exact Hv|]. rewrite reach_unfold.
+  destruct (Nat.eqb _ _); [exact Hv|]. apply IH, step_ext, Hv.
+Qed.
+
+(* a set closed under es2 absorbs every run over fewer edges started inside it *)
+Lemma reach_in_closed : forall f es1 es2 s C,
+    (forall e, In e es1 -> In e es2) -> step es2 C = C -> sub s C -> sub (reach f es1 s) C.
+Proof.
+  induction f as [|f IH]; intros es1 es2 s C He HC Hs; [exact Hs|]. rewrite reach_unfold.
+  destruct (Nat.eqb _ _); [exact Hs|]. apply (IH es1 es2); [exact He|exact HC|].
+  rewrite <- HC. apply step_mono; assumption.
+Qed.
+
+Lemma reach_mono : forall f es1 es2 s1 s2,
+    (forall e, In e es1 -> In e es2) -> sub s1 s2 -> sub (reach f es1 s1) (reach f es2 s2).
+Proof.
+  induction f as [|f IH]; intros es1 es2 s1 s2 He Hs; [exact Hs|].
+  rewrite (reach_unfold f es2 s2).
+  destruct (Nat.eqb (length (step es2 s2)) (length s2)) eqn:E2.
+  - apply Nat.eqb_eq in E2. apply (proj2 (fold_union_len es2 s2 s2)) in E2. fold (step es2 s2) in E2.
+    apply (reach_in_closed (S f) es1 es2); assumption.
+  - rewrite (reach_unfold f es1 s1). destruct (Nat.eqb (length (step es1 s1)) (length s1)) eqn:E1.
+    + intros v Hv. apply reach_ext, step_ext, Hs, Hv.
+    + apply IH; [exact He|]. apply step_mono; assumption.
+Qed.
+
+Lemma sub_refl : forall s, sub s s.
+Proof. intros s v H. exact H. Qed.
+
+(* ================================================================== *)
+(* B. products over filtered lists *)
+Local Open Scope Q_scope.
+
+Lemma qprod_acc : forall l a, fold_left Qmult l a == a * qprod l.
+Proof.
+  unfold qprod. induction l as [|x l IH]; intros a; cbn [fold_left]; [ring|].
+  rewrite IH, (IH (1 * x)). ring.
+Qed.
+Lemma qprod_cons : forall x l, qprod (x :: l) == x * qprod l.
+Proof. intros. unfold qprod at 1. cbn [fold_left]. rewrite qprod_acc. ring. Qed.
+Lemma qprod_nil : qprod [] == 1.
+Proof. reflexivity. Qed.
+
+(* more factors from [0,1] make the product smaller; larger factors make it larger *)
+Lemma qprod_filter_mono : forall (u u' : nat -> Q) (p p' : nat -> bool) l,
+    (forall v, 0 <= u' v <= u v) -> (forall v, u v <= 1) ->
+    (forall v, p v = true -> p' v = true) ->
+    0 <= qprod (map u' (filter p' l)) <= qprod (map u (filter p l)) /\ qprod (map u (filter p l)) <= 1.
+Proof.
+  intros u u' p p' l Hu Hu1 Hp. induction l as [|x l IH]; cbn [filter map].
+  - rewrite qprod_nil. lra.
+  - destruct IH as [[I0 I1] I2]. pose proof (Hu x) as Hx. pose proof (Hu1 x) as Hx1.
+    destruct (p x) eqn:Ep.
+    + rewrite (Hp x Ep). cbn [map]. rewrite !qprod_cons. nra.
+    + destruct (p' x); cbn [map]; rewrite ?qprod_cons; nra.
+Qed.
+
+Lemma filter_filter_and : forall {X} (p q : X -> bool) l, filter q (filter p l) = filter (fun x => p x && q x) l.
+Proof.
+  intros X p q. induction l as [|x l IH]; [reflexivity|]. cbn [filter].
+  destruct (p x); cbn [filter andb]; [destruct (q x)|]; rewrite IH; reflexivity.
+Qed.
+
+(* ================================================================== *)
+(* C. the expectation: decreasing in the kept edges and in phi, increasing in u *)
+Definition esub (k1 k2 : list edge) : Prop := forall e, In e k1 -> In e k2.
+
+Lemma leaf_mono : forall nodes root (u u' : nat -> Q) k1 k2,
+    (forall v, 0 <= u' v <= u v) -> (forall v, u v <= 1) -> esub k1 k2 ->
+    0 <= qprod (map u' (filter (fun v => negb (Nat.eqb v root)) (comp nodes k2 root)))
+      <= qprod (map u (filter (fun v => negb (Nat.eqb v root)) (comp nodes k1 root))) /\
+    qprod (map u (filter (fun v => negb (Nat.eqb v root)) (comp nodes k1 root))) <= 1.
+Proof.
+  intros nodes root u u' k1 k2 Hu Hu1 Hk. unfold comp. rewrite !filter_filter_and.
+  apply qprod_filter_mono; [exact Hu|exact Hu1|].
+  intros v Hv. apply andb_true_iff in Hv. destruct Hv as [Hm Hr]. apply andb_true_iff. split; [|exact Hr].
+  apply (reach_mono (length nodes) k1 k2 [root] [root] Hk (sub_refl _)), Hm.
+Qed.
+
+(* joint monotonicity: more kept edges, larger phi, smaller u  =>  smaller value *)
+Lemma exact_rec_mono : forall nodes root (phi phi' : Q) (u u' : nat -> Q),
+    0 <= phi -> phi <= phi' -> phi' <= 1 ->
+    (forall v, 0 <= u' v <= u v) -> (forall v, u v <= 1) ->
+    forall es k1 k2, esub k1 k2 ->
+      0 <= exact_rec alg_q nodes root phi' u' es k2 <= exact_rec alg_q nodes root phi u es k1
+      /\ exact_rec alg_q nodes root phi u es k1 <= 1.
+Proof.
+  intros nodes root phi phi' u u' H0 Hpp H1 Hu Hu1. induction es as [|e es IH]; intros k1 k2 Hk; cbn [exact_rec].
+  - unfold aprod. cbn [alg_q amul a1]. apply leaf_mono; assumption.
+  - cbn [alg_q aadd amul asub a1].
+    assert (Hk11 : esub (k1 ++ [e]) (k2 ++ [e])).
+    { intros x Hx. apply in_app_or in Hx. apply in_or_app. destruct Hx as [Hx|Hx]; [left; apply Hk, Hx|right; exact Hx]. }
+    assert (Hk01 : esub k1 (k1 ++ [e])) by (intros x Hx; apply in_or_app; left; exact Hx).
+    destruct (IH (k1 ++ [e]) (k2 ++ [e]) Hk11) as [[A0 A1] A2].
+    destruct (IH k1 k2 Hk) as [[B0 B1] B2].
+    (* at (phi, u): adding e to the kept edges can only decrease *)
+    assert (Hsame : exact_rec alg_q nodes root phi u es (k1 ++ [e]) <= exact_rec alg_q nodes root phi u es k1).
+    { clear A0 A1 A2 B0 B1 B2 IH Hk11.
+      assert (G : forall es k1 k2, esub k1 k2 ->
+                 0 <= exact_rec alg_q nodes root phi u es k2 <= exact_rec alg_q nodes root phi u es k1
+                 /\ exact_rec alg_q nodes root phi u es k1 <= 1).
+      { clear es k1 k2 Hk Hk01. induction es as [|e' es IH']; intros k1 k2 Hk; cbn [exact_rec].
+        - unfold aprod. cbn [alg_q amul a1]. apply leaf_mono; try assumption.
+          intros v. specialize (Hu v). lra.
+        - cbn [alg_q aadd amul asub a1].
+          assert (Hk11 : esub (k1 ++ [e']) (k2 ++ [e'])).
+          { intros x Hx. apply in_app_or in Hx. apply in_or_app. destruct Hx as [Hx|Hx]; [left; apply Hk, Hx|right; exact Hx]. }
+          destruct (IH' (k1 ++ [e']) (k2 ++ [e']) Hk11) as [[A0 A1] A2].
+          destruct (IH' k1 k2 Hk) as [[B0 B1] B2].
+          assert (Hphi1 : phi <= 1) by lra. nra. }
+      apply (G es k1 (k1 ++ [e]) Hk01). }
+    set (A' := exact_rec alg_q nodes root phi' u' es (k2 ++ [e])) in *.
+    set (A := exact_rec alg_q nodes root phi u es (k1 ++ [e])) in *.
+    set (B' := exact_rec alg_q nodes root phi' u' es k2) in *.
+    set (B := exact_rec alg_q nodes root phi u es k1) in *.
+    assert (Hphi1 : phi <= 1) by lra. assert (Hphi'0 : 0 <= phi') by lra.
+    split; [split|]; nra.
+Qed.
+
+Theorem expectation_mono : forall g r (phi phi' : Q) (u u' : nat -> Q),
+    0 <= phi -> phi <= phi' -> phi' <= 1 ->
+    (forall v, 0 <= u' v <= u v) -> (forall v, u v <= 1) ->
+    expectation g r phi' u' <= expectation g r phi u.
+Proof.
+  intros g r phi phi' u u' H0 Hpp H1 Hu Hu1. rewrite <- !expectation_rec. unfold exact_gen.
+  apply (exact_rec_mono (g_nodes g) r phi phi' u u' H0 Hpp H1 Hu Hu1 (g_edges g) [] []).
+  intros e He. exact He.
+Qed.
+
